@@ -91,7 +91,12 @@ theorem publish_spec {p : Program} {k : Key} {d : NodeDef} (hp : p[k]? = some d)
     {s1 : St} (i1 : Inv p s1) (hwhy : Why p s1 k) (hns : ¬ Solid s1 k)
     (hng : ∀ n, s1.nodes k = some n → n.kind = .normal → ¬ NGood s1 k) {a : Acc} {v : Val}
     (hacc : AccOK p k s1 a) (htr : TraceOK d.prog a.deps v)
-    (hpj : d.kind = .projection → ∀ d' o nd, (d', o) ∈ a.deps → s1.nodes d' = some nd → nd.kind = .firewall) :
+    (hpj : NoProjOverProj p → d.kind = .projection →
+      ∀ d' o nd, (d', o) ∈ a.deps → s1.nodes d' = some nd → nd.kind = .firewall)
+    (hpk : d.kind = .projection →
+      ∀ d' o nd, (d', o) ∈ a.deps → s1.nodes d' = some nd → nd.kind = .firewall ∨ nd.kind = .projection)
+    (hst : StaticProj p → d.kind = .projection → ∀ ks, ProgStatic d.prog ks →
+      a.deps.map (·.1) = recordKeys ks [] ∧ a.tfc = foldTfc (front s1) ks []) :
     let changed : Bool := valueChanged s1 k v || projTfcChanged s1 k a.tfc
     let nn : Node := { kind := d.kind, lastVerified := s1.epoch, value := v, deps := a.deps,
                        seen := a.seen, tfc := a.tfc, pendingBP := changed || hasPending s1 k }
@@ -181,20 +186,155 @@ theorem publish_spec {p : Program} {k : Key} {d : NodeDef} (hp : p[k]? = some d)
       · subst e; rw [n3k] at hx; obtain rfl := Option.some.inj hx
         exact ⟨d, hp, rfl, fun h => by rcases h with h | h; exact absurd h hki; exact absurd h hke⟩
       · rw [n3o x e] at hx; exact i1.kind x nx hx
-    · intro x nx hx hkx d' o' nd' hm hnd'
+    · intro pa x nx hx hkx d' o' nd' hm hnd'
       by_cases e : x = k
       · subst e; rw [n3k] at hx; obtain rfl := Option.some.inj hx
         obtain ⟨hlt, _, nd, hnd, _⟩ := hacc.2.2 d' o' hm
         rw [n3o d' (by komega)] at hnd'
-        exact hpj hkx d' o' nd' hm hnd'
+        exact hpj pa hkx d' o' nd' hm hnd'
       · rw [n3o x e] at hx
         obtain ⟨_, nd, hnd⟩ := i1.down x nx hx d' o' hm
-        have := i1.pjFw x nx hx hkx d' o' nd hm hnd
+        have := i1.pjFw pa x nx hx hkx d' o' nd hm hnd
         by_cases e' : d' = k
         · subst e'; rw [n3k] at hnd'; obtain rfl := Option.some.inj hnd'
           show d.kind = .firewall
           rw [← oldKind nd hnd]; exact this
         · rw [n3o d' e', hnd] at hnd'; cases hnd'; exact this
+    · intro x nx hx hkx d' o' nd' hm hnd'
+      by_cases e : x = k
+      · subst e; rw [n3k] at hx; obtain rfl := Option.some.inj hx
+        obtain ⟨hlt, _, nd, hnd, _⟩ := hacc.2.2 d' o' hm
+        rw [n3o d' (by komega)] at hnd'
+        exact hpk hkx d' o' nd' hm hnd'
+      · rw [n3o x e] at hx
+        obtain ⟨_, nd, hnd⟩ := i1.down x nx hx d' o' hm
+        have := i1.pjKinds x nx hx hkx d' o' nd hm hnd
+        by_cases e' : d' = k
+        · subst e'; rw [n3k] at hnd'; obtain rfl := Option.some.inj hnd'
+          show d.kind = .firewall ∨ d.kind = .projection
+          rw [← oldKind nd hnd]; exact this
+        · rw [n3o d' e', hnd] at hnd'; cases hnd'; exact this
+    · intro sp x nx dx ks hx hpx hkx hstx
+      by_cases e : x = k
+      · subst e; rw [n3k] at hx; obtain rfl := Option.some.inj hx
+        rw [hp] at hpx; cases hpx
+        obtain ⟨h1, h2⟩ := hst sp hkx ks hstx
+        refine ⟨h1, ?_⟩
+        show a.tfc = _
+        rw [h2]
+        apply foldTfc_congr
+        intro d' hd'
+        have hmem : d' ∈ a.deps.map (·.1) := by rw [h1]; exact mem_recordKeys.2 (Or.inr hd')
+        rw [List.mem_map] at hmem
+        obtain ⟨⟨d'', o⟩, hm, rfl⟩ := hmem
+        have hlt := (hacc.2.2 d'' o hm).1
+        simp only [front, n3o d'' (by komega)]
+      · rw [n3o x e] at hx
+        refine i1.pjStat_transfer sp ?_ hx hpx hkx hstx
+        intro d' nd hnd hkd
+        by_cases ed : d' = k
+        · subst ed
+          have hk0 := oldKind nd hnd
+          simp only [front, n3k, hnd]
+          show contrib d.kind d' a.tfc = contrib nd.kind d' nd.tfc
+          rw [hk0]
+          rcases hkd with hkd | hkd
+          · rw [← hk0, hkd]; rfl
+          · have hkdp : d.kind = .projection := by rw [← hk0]; exact hkd
+            obtain ⟨ks', hks'⟩ := sp d' d hp hkdp
+            rw [(hst sp hkdp ks' hks').2, (i1.pjStat sp d' nd d ks' hnd hp hkd hks').2]
+        · simp only [front, n3o d' ed]
+    · intro sp x nx g o gn hx hm hg hkg
+      have tfcK : ∀ n0, s1.nodes k = some n0 → n0.kind = .projection → a.tfc = n0.tfc := by
+        intro n0 h0 hk0
+        have hkdp : d.kind = .projection := by rw [← oldKind n0 h0]; exact hk0
+        obtain ⟨ks', hks'⟩ := sp k d hp hkdp
+        rw [(hst sp hkdp ks' hks').2, (i1.pjStat sp k n0 d ks' h0 hp hk0 hks').2]
+      by_cases e : x = k
+      · subst e; rw [n3k] at hx; obtain rfl := Option.some.inj hx
+        obtain ⟨hlt, _, nd, hnd, _, _, hse, _⟩ := hacc.2.2 g o hm
+        rw [n3o g (by komega), hnd] at hg; cases hg
+        exact hse
+      · rw [n3o x e] at hx
+        by_cases eg : g = k
+        · subst eg
+          rw [n3k] at hg; obtain rfl := Option.some.inj hg
+          obtain ⟨_, n0, h0⟩ := i1.down x nx hx g o hm
+          have hk0 : n0.kind = .projection := by rw [oldKind n0 h0]; exact hkg
+          rw [i1.pjSeen sp x nx g o n0 hx hm h0 hk0]
+          exact (tfcK n0 h0 hk0).symm
+        · rw [n3o g eg] at hg
+          exact i1.pjSeen sp x nx g o gn hx hm hg hkg
+    · intro sp g gn hg hkg hpg
+      have pendMono : ∀ c, hasPending s1 c = true → hasPending s3 c = true := by
+        intro c hc
+        by_cases ec : c = k
+        · subst ec
+          simp only [hasPending, n3k]
+          show (changed || hasPending s1 c) = true
+          simp [hc]
+        · simpa [hasPending, n3o c ec] using hc
+      by_cases eg : g = k
+      · subst eg
+        rw [n3k] at hg; obtain rfl := Option.some.inj hg
+        have hkdp : d.kind = .projection := hkg
+        obtain ⟨ks', hks'⟩ := sp g d hp hkdp
+        have hkeys := (hst sp hkdp ks' hks').1
+        -- an old callee with a pending backward projection is still recorded
+        have keep : ∀ n0, s1.nodes g = some n0 → ∀ c o, (c, o) ∈ n0.deps → hasPending s1 c = true →
+            ∃ c o, (c, o) ∈ a.deps ∧ hasPending s3 c = true := by
+          intro n0 h0 c o hm hc
+          have hk0 : n0.kind = .projection := by rw [oldKind n0 h0]; exact hkdp
+          have hmem : c ∈ a.deps.map (·.1) := by
+            rw [hkeys, ← (i1.pjStat sp g n0 d ks' h0 hp hk0 hks').1]
+            exact List.mem_map.2 ⟨(c, o), hm, rfl⟩
+          rw [List.mem_map] at hmem
+          obtain ⟨⟨c', o'⟩, hm', rfl⟩ := hmem
+          exact ⟨c', o', hm', pendMono c' hc⟩
+        have hpg' : (changed || hasPending s1 g) = true := hpg
+        cases h0 : s1.nodes g with
+        | none => simp [changed, valueChanged, projTfcChanged, hasPending, h0] at hpg'
+        | some n0 =>
+          have hk0 : n0.kind = .projection := by rw [oldKind n0 h0]; exact hkdp
+          by_cases hp0 : n0.pendingBP = true
+          · obtain ⟨c, o, hm, hc⟩ := i1.pjCause sp g n0 h0 hk0 hp0
+            exact keep n0 h0 c o hm hc
+          · -- newly pending: the value changed (the set cannot), so a recorded callee is broken
+            have hch : changed = true := by simpa [hasPending, h0, hp0] using hpg'
+            have htf : projTfcChanged s1 g a.tfc = false := by
+              have : a.tfc = n0.tfc := by
+                rw [(hst sp hkdp ks' hks').2, (i1.pjStat sp g n0 d ks' h0 hp hk0 hks').2]
+              simp [projTfcChanged, h0, this]
+            have hvc : valueChanged s1 g v = true := by simpa [changed, htf] using hch
+            have hbroken : ∃ c o nc, (c, o) ∈ n0.deps ∧ s1.nodes c = some nc ∧ nc.value ≠ o := by
+              false_or_by_contra
+              rename_i hno
+              have hall : ∀ c o, (c, o) ∈ n0.deps → ∃ nc, s1.nodes c = some nc ∧ nc.value = o := by
+                intro c o hm
+                obtain ⟨_, nc, hnc⟩ := i1.down g n0 h0 c o hm
+                refine ⟨nc, hnc, ?_⟩
+                false_or_by_contra
+                rename_i hne
+                exact hno ⟨c, o, nc, hm, hnc, hne⟩
+              -- the stored values are consistent with both recorded runs: same result
+              let rec' : Key → Option Val := fun x => (s1.nodes x).map (·.value)
+              have t0 := i1.trace g n0 d h0 hp (by rw [hk0]; decide) (by rw [hk0]; decide) rec' (by
+                intro c o hm
+                obtain ⟨nc, hnc, hv⟩ := hall c o hm
+                simp [rec', hnc, hv])
+              have t1 := htr rec' (by
+                intro c o hm
+                obtain ⟨_, _, nc, hnc, hv, _⟩ := hacc.2.2 c o hm
+                simp [rec', hnc, hv])
+              rw [t0] at t1
+              have hvv : n0.value = v := Option.some.inj t1
+              simp [valueChanged, h0, hvv] at hvc
+            obtain ⟨c, o, nc, hm, hnc, hne⟩ := hbroken
+            have hpc := i1.pjBroken g n0 h0 hk0 c o nc hm hnc hne
+            exact keep n0 h0 c o hm (by simp [hasPending, hnc, hpc])
+      · rw [n3o g eg] at hg
+        obtain ⟨c, o, hm, hc⟩ := i1.pjCause sp g gn hg hkg hpg
+        exact ⟨c, o, hm, pendMono c hc⟩
     · intro x nx hx hkx d' o' nd' hm hnd' hne
       by_cases e : x = k
       · subst e; rw [n3k] at hx; obtain rfl := Option.some.inj hx
@@ -206,11 +346,11 @@ theorem publish_spec {p : Program} {k : Key} {d : NodeDef} (hp : p[k]? = some d)
         · subst e'
           rw [n3k] at hnd'; obtain rfl := Option.some.inj hnd'
           obtain ⟨_, n0, h0⟩ := i1.down x nx hx d' o' hm
-          have hk0 := i1.pjFw x nx hx hkx d' o' n0 hm h0
+          have hk0 := i1.pjKinds x nx hx hkx d' o' n0 hm h0
           show (changed || hasPending s1 d') = true
           by_cases hv0 : n0.value = o'
           · have : valueChanged s1 d' v = true :=
-              valueChanged_true_of_ne h0 (Or.inl hk0) (by rw [hv0]; exact fun h => hne h.symm)
+              valueChanged_true_of_ne h0 hk0 (by rw [hv0]; exact fun h => hne h.symm)
             simp [changed, this]
           · have := i1.pjBroken x nx hx hkx d' o' n0 hm h0 hv0
             simp [hasPending, h0, this]
